@@ -431,9 +431,11 @@ def _r2(chk, repo, m) -> None:
         else:
             # inline form: `... if "<k>" not in cfg.skip_graph_checks` filter of the candidate comprehension
             used = isinstance(c.ops[0], ast.NotIn) and any(isinstance(a, ast.comprehension) for a in ancestors(c))
-        ok = k in step_members and bool(inside) and used
+        # whether the skipping steps are really taken out of the candidates (and out of nothing else) is decided semantically by
+        # R4, which runs every per-step skip setting against the oracle; here: the inventory and the gate
+        ok = k in step_members and bool(inside)
         seen_step.add(k)
-        chk.ob("C23.R2", f"per-step skip `{k}` is a StepGraphCheck member, read inside the `{k}` gate and removed from the candidate steps", ok,
+        chk.ob("C23.R2", f"per-step skip `{k}` is a StepGraphCheck member and is read inside the `{k}` gate (its effect on the candidates: C23.R4)", ok,
                m=mg, node=c, fn=vg, instance=f"step-skip:{k}",
                reason=(f"`{k}` is not a member of StepGraphCheck {step_members}" if k not in step_members else
                        (f"the test sits outside the `{k}` gate (skipping `{k}` on a step would silence a different check)" if not inside else
@@ -600,6 +602,14 @@ def _env(m, table) -> tuple[dict, dict]:
     env["str"] = str
     env["type"] = type_
     hooks = {"issubclass": issub, "type": type_, "isinstance": isinst}
+    # module-level constants (tuples of boundary classes, names of checks …) the functions may refer to
+    for st in m.tree.body:
+        tg = st.targets[0] if isinstance(st, ast.Assign) and len(st.targets) == 1 else (st.target if isinstance(st, ast.AnnAssign) else None)
+        if isinstance(tg, ast.Name) and getattr(st, "value", None) is not None and tg.id not in env:
+            try:
+                env[tg.id] = Interp(env, hooks).eval(st.value, dict(env))
+            except (Unsupported, Raised):
+                pass
     return env, hooks
 
 
@@ -1015,7 +1025,7 @@ TWINS = [
     Twin("handler findings ignored for a single handler", _V, "    if handler_errors:\n", "    if handler_errors and len(handlers) > 1:\n", "C23.R2"),
     Twin("dead_end gate reads the wrong name", _V, "    if \"dead_end\" not in skip_checks:", "    if \"terminal_event\" not in skip_checks:", "C23.R2"),
     Twin("per-step dead_end skip reads reachability", _V, "name for name, cfg in steps.items() if \"dead_end\" in cfg.skip_graph_checks", "name for name, cfg in steps.items() if \"reachability\" in cfg.skip_graph_checks", "C23.R2"),
-    Twin("per-step reachability skip computed but unused", _V, "            for name in graph.step_names - step_skip\n", "            for name in graph.step_names\n", "C23.R2"),
+    Twin("per-step reachability skip computed but unused", _V, "            for name in graph.step_names - step_skip\n", "            for name in graph.step_names\n", "C23.R4"),
     Twin("new Literal member without a check", _D, "WorkflowGraphCheck = Literal[\"reachability\", \"terminal_event\", \"dead_end\"]", "WorkflowGraphCheck = Literal[\"reachability\", \"terminal_event\", \"dead_end\", \"cycle\"]", "C23.R2"),
     Twin("skip set not forwarded", _V, "        skip_checks=skip_graph_checks,\n", "        skip_checks=None,\n", "C23.R2"),
     Twin("validate() honours the cache", _W, "            force=True,  # Explicit validate() call should always run", "            force=False,", "C23.R2"),
